@@ -239,6 +239,9 @@ def run_property(mod, tier, seed=0, mutant=None, keep=False, quiet=False):
         except (SliceError, Undecided) as e:
             print("UNDECIDED property=%s reason=%s" % (pid, e))
             return 2, None
+        if getattr(mod, "USES_CPP", False):
+            from . import frontend
+            jobs = [frontend.job()] + list(jobs)
         only = os.environ.get("VERIF_ONLY")     # development aid: run a subset of the runs (never used by registered commands)
         if only:
             jobs = [j for j in jobs if re.search(only, j.name)]
